@@ -13,11 +13,20 @@
 #include <ArduinoJson/Variant/JsonVariantConst.hpp>
 #include <ArduinoJson/Variant/VariantTo.hpp>
 
+#ifdef BBLANCHON_ARDUINOJSON_VERIF
+namespace verif {
+struct Inspector;
+}
+#endif
+
 ARDUINOJSON_BEGIN_PUBLIC_NAMESPACE
 
 // A JSON document.
 // https://arduinojson.org/v7/api/jsondocument/
 class JsonDocument : public detail::VariantOperators<const JsonDocument&> {
+#ifdef BBLANCHON_ARDUINOJSON_VERIF
+  friend struct ::verif::Inspector;
+#endif
   friend class detail::VariantAttorney;
 
  public:
